@@ -1,7 +1,7 @@
 /* C08: split_context and the join(split_context(s, d, m), d) == s lemma. */
 #include "harness/C08/common.h"
 #include "contracts/C08_context.h"
-size_t g_depth, g_nops, g_kdepth, g_size0, g_cnt0, g_ls0; int g_lastop; char g_lastval, g_c, g_top0; bool g_esc0;
+size_t g_depth, g_nops, g_kdepth, g_size0, g_cnt0, g_ls0, g_nconsumed; int g_lastop; char g_lastval, g_c, g_top0; bool g_esc0;
 #include "x_context.c"
 #define IN_CTX size_t in_depth, in_nops, in_kdepth; g_depth = in_depth; g_nops = in_nops; g_kdepth = in_kdepth
 void h_split_context(void) { vvec* ret; const vstr* s; char in_delim; size_t in_max_splits; IN_GHOSTS; IN_CTX; split_context(ret, s, in_delim, in_max_splits); VERIF_REACH(); }
